@@ -86,6 +86,16 @@ Theorem in_list_exact : forall (neg : bool) (tok : str) (vals : list str) (x : s
 Proof. exact in_list_exact_lemma. Qed.
 Print Assumptions in_list_exact.
 
+(* ... and on the SET of strings the literals denote only: two lists that denote the same strings - however many
+   literals each has, in whatever order they are written, with or without repeated literals - select the same values *)
+Theorem in_list_length_order_independent : forall (neg : bool) (tok : str) (vals vals' : list str) (x : str),
+  spells_wordop wo_in neg tok ->
+  (forall v, In v vals <-> In v vals') ->
+  in_query tok (map literal_full vals) (Some x) = in_query tok (map literal_full vals') (Some x) /\
+  in_query tok (map literal_min vals) (Some x) = in_query tok (map literal_min vals') (Some x).
+Proof. exact in_list_set_lemma. Qed.
+Print Assumptions in_list_length_order_independent.
+
 (* contains / not contains / icontains likewise depend on the operator token and the value of the literal only *)
 Theorem contains_exact : forall (neg : bool) (tok s x : str),
   spells_wordop wo_contains neg tok ->
